@@ -1,5 +1,5 @@
 import Proofs.C11
-import Proofs.Gen
+import Proofs.GenPurity
 #print axioms Xsel.C11.principalNamed_iff
 #print axioms Xsel.C11.nametest_by_uri
 #print axioms Xsel.C11.nametest_name
